@@ -156,7 +156,7 @@ func ext۰reflect۰rtype۰Size(fr *frame, args []value) value {
 
 func ext۰reflect۰rtype۰String(fr *frame, args []value) value {
 	// Signature: func (t reflect.rtype) string
-	return args[0].(rtype).t.String()
+	return types.TypeString(args[0].(rtype).t, func(p *types.Package) string { return p.Name() })
 }
 
 func ext۰reflect۰New(fr *frame, args []value) value {
@@ -258,7 +258,19 @@ func ext۰reflect۰Value۰Kind(fr *frame, args []value) value {
 
 func ext۰reflect۰Value۰String(fr *frame, args []value) value {
 	// Signature: func (reflect.Value) string
-	return toString(rV2V(args[0]))
+	switch v := rV2V(args[0]).(type) {
+	case string, symstr, opaqueStr:
+		return v
+	case rvAddr:
+		switch s := (*v.p).(type) {
+		case string, symstr, opaqueStr:
+			return s
+		}
+	}
+	if b, ok := rV2T(args[0]).t.Underlying().(*types.Basic); ok && b.Info()&types.IsString != 0 {
+		panic(unsupported("reflect.Value.String of an unexpected string representation"))
+	}
+	return "<" + types.TypeString(rV2T(args[0]).t, func(p *types.Package) string { return p.Name() }) + " Value>"
 }
 
 func ext۰reflect۰Value۰Type(fr *frame, args []value) value {
